@@ -33,7 +33,7 @@ RULE = (
     "battery: public functions x in-domain arguments (argument hashes, repeat-call equality); non-trivial = every history"
 )
 BOUNDS = {
-    "quick": "21 solver cells (incl. 5 tight-budget cells mixing converging and non-converging problems) x 84 histories (4+16+64); battery of ~60 public calls x 2 repeats; 2 import styles",
+    "quick": "21 solver cells (incl. 5 tight-budget cells mixing converging and non-converging problems) x 84 histories (4+16+64); battery of ~100 public calls plus the product (15 decompositions/solvers) x (structure classes: block-diagonal with 1..n-2 decoupled leading columns, diagonal, tridiagonal, triangular, Hessenberg, zero first column, reduced first column, zero, identity) x n in 3..5, each with repeat, in-place-aliasing, argument-hash and RNG-independence clauses; 2 import styles",
     "thorough": "pool of 5-6 problems, depth 4 (780-1554 histories per cell)",
 }
 WALL_BUDGET = {"quick": 600, "thorough": 3000}
@@ -294,6 +294,81 @@ def battery(lib):
                 (f"schur_experimental[{kind},{nn}]", lambda A: lib.schur.quaternion_schur_experimental(A, max_iter=30), (S_.copy(),), False),
                 (f"hessenbergize[{kind},{nn}]", lib.hess.hessenbergize, (S_.copy(),), False),
             ]
+    # structure classes x decompositions: shortcuts for already-reduced / decoupled / zero inputs are exactly where
+    # a "B = A" without a copy hides (argument mutation only shows when the skipped step would have been non-trivial
+    # further down the recursion)
+    def _structured(nn, hermitian):
+        base = gmat(nn, nn, 11 + nn)
+        if hermitian:
+            base = 0.5 * (base + O.qH(base))
+            for i in range(nn):
+                base[i, i, 1:] = 0
+        outS = {}
+        for dcut in range(1, nn - 1):  # block diag(dcut x dcut, rest): first dcut columns decoupled
+            X = base.copy()
+            X[dcut:, :dcut] = 0
+            X[:dcut, dcut:] = 0
+            outS[f"blockdiag{dcut}"] = X
+        X = np.zeros_like(base)
+        for i in range(nn):
+            X[i, i] = base[i, i]
+        outS["diag"] = X
+        X = base.copy()
+        for i in range(nn):
+            for j_ in range(nn):
+                if abs(i - j_) > 1:
+                    X[i, j_] = 0
+        outS["tridiag"] = X
+        if not hermitian:
+            X = base.copy()
+            for i in range(nn):
+                X[i + 1:, i] = 0
+            outS["triu"] = X
+            X = base.copy()
+            for i in range(nn):
+                X[i + 2:, i] = 0
+            outS["hessenberg"] = X
+            X = base.copy()
+            X[:, 0] = 0
+            outS["zerocol0"] = X
+            X = base.copy()
+            X[1:, 0] = 0
+            outS["col0_reduced"] = X
+        outS["zero"] = np.zeros_like(base)
+        outS["identity"] = O.qeye(nn)
+        return outS
+
+    herm_fns = [
+        ("tridiagonalize", lib.tridiag.tridiagonalize),
+        ("eigendecomposition", lib.eigen.quaternion_eigendecomposition),
+        ("eigenvalues", lib.eigen.quaternion_eigenvalues),
+        ("det_M", lambda A: u.det(A, "Moore")),
+        ("power_iteration_nonhermitian", u.power_iteration_nonhermitian),
+    ]
+    gen_fns = [
+        ("hessenbergize", lib.hess.hessenbergize),
+        ("qr_qua", lib.qsvd.qr_qua),
+        ("classical_qsvd_full", lib.qsvd.classical_qsvd_full),
+        ("quaternion_lu_p", lambda A: lib.LU.quaternion_lu(A, return_p=True)),
+        ("rank", u.rank),
+        ("matrix_norm_2", lambda A: u.matrix_norm(A, 2)),
+        ("quat_null_space", u.quat_null_space),
+        ("schur_pure", lambda A: lib.schur.quaternion_schur_pure(A, max_iter=20)),
+        ("schur_implicit", lambda A: lib.schur.quaternion_schur_pure_implicit(A, max_iter=20)),
+        ("NS.compute", lambda A: sv.NewtonSchulzPseudoinverse(max_iter=6).compute(A)),
+    ]
+    SINGULAR_OK = {"zero", "zerocol0", "diag", "identity", "triu", "hessenberg", "tridiag", "col0_reduced"}
+    for nn in (3, 4, 5):
+        for sname, X in _structured(nn, True).items():
+            for fname, fn in herm_fns:
+                if fname == "power_iteration_nonhermitian" and sname in ("zero",):
+                    continue
+                B.append((f"struct:{fname}[{sname},{nn}]", fn, (Q_(X),), fname == "power_iteration_nonhermitian"))
+        for sname, X in _structured(nn, False).items():
+            for fname, fn in gen_fns:
+                if fname == "quaternion_lu_p" and sname in ("zero", "zerocol0"):
+                    continue  # singular input: LU raises (C07/C20), not a C14 cell
+                B.append((f"struct:{fname}[{sname},{nn}]", fn, (Q_(X),), False))
     B += [
         ("tensor_unfold", t.tensor_unfold, (T3, 1), False),
         ("tensor_fold", t.tensor_fold, (t.tensor_unfold(T3, 2), 2, (2, 3, 2)), False),
@@ -485,7 +560,7 @@ def run_case(case, seed):
                 evals += 2
                 if okf != oki or (okf and canon_plain(rf) != ci):
                     fails.append(fail("stale_result_after_inplace_update", f"{name}: after overwriting the argument in place the call returns a different value than on a fresh copy of the same data", **tags))
-                elif okf and ok1 and canon_plain(rf) == c1 and name not in SCALE_BLIND:
+                elif okf and ok1 and canon_plain(rf) == c1 and name not in SCALE_BLIND and not name.startswith("struct:"):
                     fails.append(fail("battery_alt_not_discriminating", f"{name}: alternate data gives the same result (check design)", **tags))
             if not rnd:
                 # a deterministic routine must not depend on (or consume) the global random stream
@@ -496,7 +571,7 @@ def run_case(case, seed):
                 evals += 1
                 if ok4 and ok1 and canon_plain(r4) != canon_plain(r1):
                     fails.append(fail("depends_on_global_rng", f"{name}: result changes with the state of numpy's global generator", **tags))
-                if name not in RNG_CONSUMERS and not np.array_equal(st0, st1):
+                if name.split(":")[-1].split("[")[0] not in RNG_CONSUMERS and not np.array_equal(st0, st1):
                     fails.append(fail("consumes_global_rng", f"{name}: deterministic routine advances numpy's global generator", **tags))
             if rnd:
                 np.random.seed(778)
